@@ -330,6 +330,18 @@ func (e *Engine) verifyCase(c *Contract, combo []caseChoice, selRet int) (res *R
 		args = append(args, v)
 	}
 	x.inputs = args
+	if contains(c.Properties, "C18") {
+		x.allocChecked = true
+		for i, p := range h.Params {
+			if sl, ok := p.Type().Underlying().(*types.Slice); ok {
+				if b, ok := sl.Elem().Underlying().(*types.Basic); ok && b.Kind() == types.Uint8 {
+					if t, ok := args[i].(*Term); ok {
+						x.availLens = append(x.availLens, x.w.sLen(t))
+					}
+				}
+			}
+		}
+	}
 	x.assumeConstTables(st, c.PkgPath)
 	x.callFunction(h, args, nil, st)
 	res.Obls = x.obls
